@@ -338,8 +338,11 @@ def run_job(job):
 @st.composite
 def _rowkey(draw, N, keep2d=False):
     kinds = ['slice', 'ilist', 'bmask'] if keep2d else ['int', 'npint', 'slice', 'ilist', 'bmask', 'blist', 'ell', 'slice', 'ilist']
+    if N == 0:
+        # an intermediate without events: the keys that are legal on an empty axis
+        kinds = ['slice', 'ilist', 'bmask'] + ([] if keep2d else ['ell'])
     kind = draw(st.sampled_from(kinds))
-    idx = st.integers(-N - 1, N) if not keep2d else st.integers(-N, N - 1)
+    idx = st.integers(-N - 1, N) if not keep2d else st.integers(-N, max(N - 1, -N))
     if kind == 'int':
         return ['int', draw(idx)]
     if kind == 'npint':
@@ -348,7 +351,7 @@ def _rowkey(draw, N, keep2d=False):
         v = st.one_of(st.none(), st.integers(-N - 2, N + 2))
         return ['slice', [draw(v), draw(v), draw(st.sampled_from([None, 1, -1, 2, -2, 3]))]]
     if kind == 'ilist':
-        return ['ilist', draw(st.lists(st.integers(-N, N - 1) if N else st.nothing(), max_size=4))]
+        return ['ilist', draw(st.lists(st.integers(-N, N - 1), max_size=4)) if N else []]
     if kind in ('bmask', 'blist'):
         return [kind, draw(st.lists(st.booleans(), min_size=N, max_size=N))]
     return ['ell']
@@ -358,6 +361,13 @@ def _rowkey(draw, N, keep2d=False):
 def _colkey(draw, D, names, keep2d=False):
     kinds = ['absent', 'slice', 'list'] if keep2d else \
         ['absent', 'int', 'name', 'slice', 'list', 'list', 'tuple', 'ell', 'blist', 'npint', 'nparr', 'npbool', 'pybool', 'badname', 'none']
+    if D == 0:
+        # an intermediate without channels: the keys that are legal on an empty axis
+        kind = draw(st.sampled_from(['absent', 'slice', 'list'] + ([] if keep2d else ['ell', 'blist'])))
+        if kind == 'slice':
+            v = st.one_of(st.none(), st.integers(-2, 2))
+            return ['slice', [draw(v), draw(v), draw(st.sampled_from([None, 1, -1, 2]))]]
+        return [kind] if kind in ('absent', 'ell') else [kind, []]
     kind = draw(st.sampled_from(kinds))
     item = st.one_of(st.integers(-D, D - 1), st.sampled_from(names))
     if kind == 'absent':
@@ -406,7 +416,7 @@ def _chain_case(draw):
                 sub = probe[realise(rk)] if ck[0] == 'absent' else probe[(realise(rk), translate_col(ck, nm))]
             except Exception:
                 break
-            if sub.ndim != 2 or sub.shape[0] == 0 or sub.shape[1] == 0:
+            if sub.ndim != 2:
                 break
             if ck[0] != 'absent':
                 nm = [nm[c] for c in np.atleast_1d(np.arange(dd)[translate_col(ck, nm)])]
